@@ -69,6 +69,13 @@ class Run:
                 os.remove(disp)
             if self.prop == "C05":
                 self.broken.append(("translator", "gen_consts --dispatch", err.strip()))
+        ss = os.path.join(gen, "Mp4ShiftSites.v")
+        rc, out, err = sh([sys.executable, os.path.join(VERIF, "tools", "gen_consts.py"), "--shift-sites", self.repo, ss])
+        if rc != 0:
+            if os.path.exists(ss):
+                os.remove(ss)
+            if self.prop == "C01":
+                self.broken.append(("translator", "gen_consts --shift-sites", err.strip()))
         bt = os.path.join(gen, "Mp4BoxTypes.v")
         rc, out, err = sh([sys.executable, os.path.join(VERIF, "tools", "gen_consts.py"), "--box-types", self.repo, bt])
         if rc != 0:
